@@ -128,6 +128,9 @@ func runProperty(w *World, cs *Contracts, mods *ModAnalysis, prop, tier string, 
 		}
 		rs := solveAll(fr, solveOpts{timeoutS: timeout, workers: 16, dir: scratch, crossCheck: cross})
 		for _, r := range rs {
+			if r.ToolError != "" {
+				out.errs = append(out.errs, r.ToolError)
+			}
 			out.results = append(out.results, r)
 			out.solverTime += r.Seconds
 			if r.Solver != "" {
